@@ -26,6 +26,7 @@ pub fn spec(id: &str) -> Option<Spec> {
                 "hook H5 turns a parser loop without token consumption into a panic",
             ],
             worker_timeout_s: |t| t.pick(900, 4 * 3600),
+            rayon_threads: 1,
         },
         "C10" => Spec {
             id: "C10",
@@ -40,6 +41,58 @@ pub fn spec(id: &str) -> Option<Spec> {
             crash_is_violation: true,
             assumptions: &["the file content stored in the parser database is the input text"],
             worker_timeout_s: |t| t.pick(900, 4 * 3600),
+            rayon_threads: 1,
+        },
+        "C02" => Spec {
+            id: "C02",
+            level: "exploration",
+            rule: "Honest monitored runs in the real VM of (a) every function `test::*` of every e2e libfunc snippet and \
+                   examples/ program, compiled under several configurations and both metadata solvers, on inputs \
+                   generated from the Sierra parameter types (boundary+random) and 4 gas budgets (ample, exactly the \
+                   entry cost, a few steps more, random), (b) every corelib #[test]. A run is in the domain if the \
+                   program (for corelib tests: the executed statements) uses audited libfuncs only. Violation = VM \
+                   error, or body steps > gas/100+1. Non-trivial = distinct (program, function, argument vector, gas \
+                   class, configuration) whose trace has >= 3 body steps.",
+            floor: |t| t.pick(1500, 10_000),
+            shards: |_| 1,
+            crash_is_violation: false,
+            assumptions: &[
+                "arguments are generated in-range from the Sierra types; functions with parameters that cannot be \
+                 built from outside (boxes, dicts, EC points) are skipped and counted",
+                "hints are the runner's honest hint processor",
+            ],
+            worker_timeout_s: |t| t.pick(1500, 6 * 3600),
+            rayon_threads: 16,
+        },
+        "C04" => Spec {
+            id: "C04",
+            level: "exploration",
+            rule: "Same executions as C02. For every completed run with gas tracking and no syscalls the inequality \
+                   100*steps + 70*rc + 56*rc96 + sum price(b)*uses(b) <= (gas_in - gas_left) + 100 is evaluated with \
+                   the runner's own price table (functions without a gas builtin: static entry cost). Both metadata \
+                   solvers are used on the snippets. Non-trivial = distinct (program, function, args, gas class, \
+                   configuration) with >= 3 body steps; min_gas_slack in `mins` shows how tight the bound was.",
+            floor: |t| t.pick(1500, 10_000),
+            shards: |_| 1,
+            crash_is_violation: false,
+            assumptions: &["prices are read from cairo_lang_runner::token_gas_cost and ConstCost::cost (100/70/56)"],
+            worker_timeout_s: |t| t.pick(1500, 6 * 3600),
+            rayon_threads: 16,
+        },
+        "C17" => Spec {
+            id: "C17",
+            level: "exploration",
+            rule: "Same executions as C02. A shadow call stack over the relocated trace checks, for every dynamic call \
+                   instance of a function with a declared ap change k, that ap_at_ret - ap_at_entry == k; every trace \
+                   pc must start an instruction inside exactly one statement's recorded range (const-segment `ret`s \
+                   whitelisted); statement ranges must tile the code and encoded lengths equal op_size. Non-trivial = \
+                   distinct run with >= 3 body steps; `call_instances_checked` counts checked frames.",
+            floor: |t| t.pick(1500, 10_000),
+            shards: |_| 1,
+            crash_is_violation: false,
+            assumptions: &["instruction kinds (call/ret) are read from CairoProgram.instructions"],
+            worker_timeout_s: |t| t.pick(1500, 6 * 3600),
+            rayon_threads: 16,
         },
         _ => return None,
     })
@@ -57,6 +110,7 @@ pub fn worker(id: &str, ctx: &mut Ctx) {
     match id {
         "C09" => crate::frontend::c09_worker(ctx),
         "C10" => crate::frontend::c10_worker(ctx),
+        "C02" | "C04" | "C17" => crate::execchecks::exec_worker(ctx, id),
         _ => panic!("no worker for {id}"),
     }
 }
@@ -66,6 +120,7 @@ pub fn replay(id: &str, case: &Value) -> Result<Option<String>, String> {
     match id {
         "C09" => crate::frontend::c09_replay(case),
         "C10" => crate::frontend::c10_replay(case),
+        "C02" | "C04" | "C17" => crate::execchecks::exec_replay(id, case),
         _ => Err(format!("no replay for {id}")),
     }
 }
